@@ -17,6 +17,7 @@ func init() {
 			c.run("C15-R3", "PAIR: descriptor typestate of the archive reader and writer", c15R3)
 			c.run("C15-R4", "GUARD-DOM/WHO-CALLS: writer state machine", c15R4)
 			c.run("C15-R5", "WHO-CALLS: entries are created through the checked create path", c15R5)
+			c.run("C15-R7", "GUARD-DOM/MUST-PASS: every payload read / write on an entry's file is capped by, and accounted against, what the entry is owed", c15Accounting)
 			c.run("C15-S1", "shared with C09-V: the entry-name validator refuses exactly the names that are not a single path element (any other name of the tree is accepted)", c09Validators)
 			c.run("C15-R6", "PAIR (shared with C01-R6): open files do not accumulate over the per-file loops", c01R6)
 		})
@@ -412,5 +413,78 @@ func c15R5(c *Ctx) {
 	n := c.fn("trzszTransfer.newArchiveWriter")
 	for _, cs := range c.callersOf(n) {
 		c.check(c.fnName(cs.Caller) == "trzszTransfer.createDirOrFile", "newArchiveWriter<-"+c.fnName(cs.Caller), c.ipos(cs.Instr), "archive writers are created by the common name-to-path function", "an archive writer is created outside the checked create path")
+	}
+}
+
+// c15Accounting: every transfer of payload bytes between the stream and an entry's file — on either end, at every
+// site, not only at the one the other rules anchor on — is capped by what the entry is still owed and is followed,
+// before the function can return or move on, by `left -= n` with n the count that very call reported.
+func c15Accounting(c *Ctx) {
+	for _, side := range []struct{ fn, method, owner string }{
+		{"archiveFileReader.Read", "Read", "archiveFileReader"},
+		{"archiveFileWriter.Write", "Write", "archiveFileWriter"},
+	} {
+		f := c.fn(side.fn)
+		n := 0
+		isFileOp := func(call *ssa.Call) bool {
+			if call.Call.IsInvoke() {
+				return call.Call.Method.Name() == side.method && isFieldLoad("file")(call.Call.Value)
+			}
+			return calleeID(&call.Call) == "(*os.File)."+side.method && len(call.Call.Args) > 0 && isFieldLoad("file")(call.Call.Args[0])
+		}
+		eachInstr(f, func(in ssa.Instruction) {
+			call, ok := in.(*ssa.Call)
+			if !ok || !isFileOp(call) {
+				return
+			}
+			n++
+			args := call.Call.Args
+			buf := args[len(args)-1]
+			// capped: the slice handed over is p[:min(len(p), left)] (either argument order of the min helper)
+			capped := false
+			if sl, isS := strip(buf).(*ssa.Slice); isS && sl.High != nil {
+				for _, l := range origins(sl.High, originOpts{}) {
+					if mc, _ := callOf(l.V); mc != nil && isMinFunc(mc.Call.StaticCallee()) {
+						for _, a := range mc.Call.Args {
+							if isFieldLoad("left")(strip(a)) {
+								capped = true
+							}
+						}
+					}
+				}
+			}
+			c.check(capped, side.fn+"/every-site-capped", c.ipos(call), "the bytes moved are capped by what the entry is still owed", "a payload "+side.method+" is not capped by the entry's remaining size: bytes of the next header are taken for payload (or a short count shifts every later entry)")
+			cnt := extractOf(call, 0)
+			hit, path := reachAvoid(call, func(x ssa.Instruction) bool {
+				if isReturn(x) {
+					return true
+				}
+				c2, ok := x.(*ssa.Call)
+				return ok && c2 != call && isFileOp(c2)
+			}, func(x ssa.Instruction) bool {
+				st, ok := x.(*ssa.Store)
+				if !ok {
+					return false
+				}
+				nm, _ := fieldAddrName(st.Addr)
+				if nm != side.owner+".left" {
+					return false
+				}
+				b, isB := strip(st.Val).(*ssa.BinOp)
+				if !isB || b.Op != token.SUB || !isFieldLoad("left")(b.X) {
+					return false
+				}
+				for _, l := range origins(b.Y, originOpts{}) {
+					if l.V == cnt {
+						return true
+					}
+				}
+				return false
+			})
+			c.check(hit == nil, side.fn+"/every-site-decrements-by-count", c.ipos(call), "after each payload "+side.method+" the remaining size drops by the count that call reported", "a payload "+side.method+" is not followed by left -= n (n: its own count): the entry boundary drifts", c.pathStr(path)...)
+		})
+		if n == 0 {
+			c.undecided(side.fn+"/payload-sites", "no payload "+side.method+" on the entry's file found")
+		}
 	}
 }
